@@ -26,8 +26,20 @@ pub mod c11;
 pub mod c01;
 #[cfg(feature = "c07")]
 pub mod c07;
-#[cfg(feature = "c05")]
+#[cfg(feature = "c20")]
+pub mod c20;
+#[cfg(feature = "c12")]
+pub mod c12;
+#[cfg(feature = "c06")]
+pub mod c06;
+#[cfg(feature = "c19")]
+pub mod c19;
+#[cfg(feature = "c18")]
+pub mod c18;
+#[cfg(any(feature = "c05", feature = "c17"))]
 pub mod c05;
+#[cfg(feature = "c17")]
+pub mod c17;
 #[cfg(feature = "c09")]
 pub mod c09;
 
@@ -52,8 +64,20 @@ pub fn tables() -> Vec<&'static [(&'static str, fn())]> {
     v.push(c01::TABLE);
     #[cfg(feature = "c07")]
     v.push(c07::TABLE);
+    #[cfg(feature = "c20")]
+    v.push(c20::TABLE);
+    #[cfg(feature = "c12")]
+    v.push(c12::TABLE);
+    #[cfg(feature = "c06")]
+    v.push(c06::TABLE);
+    #[cfg(feature = "c19")]
+    v.push(c19::TABLE);
+    #[cfg(feature = "c18")]
+    v.push(c18::TABLE);
     #[cfg(feature = "c05")]
     v.push(c05::TABLE);
+    #[cfg(feature = "c17")]
+    v.push(c17::TABLE);
     #[cfg(feature = "c09")]
     v.push(c09::TABLE);
     v
